@@ -61,7 +61,9 @@ Op(e) ==
   \* stale: balancing reported success earlier and other operations followed. A VALIDATING build (build_tx) that still produces a
   \* transaction then has to satisfy the same rules ("reports that balancing succeeded and then produces a transaction", in any order of calls)
   /\ stale' = (IF e.op \in Balancing THEN FALSE ELSE IF Has(e.r, "ok") THEN (balanced \/ stale) ELSE stale)
-  /\ feeReq' = (IF ~Has(e.r, "ok") THEN feeReq ELSE IF e.op = "SetFee" THEN <<"exact", FromBE(e.n)>> ELSE IF e.op = "SetMinFee" THEN <<"notless", FromBE(e.n)>> ELSE feeReq)
+  \* a fee request counts while no balancing has succeeded yet: once add_change / selection finalised the fee, a later set_fee is
+  \* one of the "other operations" (state stale) - whatever a validating build then produces must still be balanced
+  /\ feeReq' = (IF ~Has(e.r, "ok") \/ balanced \/ stale THEN feeReq ELSE IF e.op = "SetFee" THEN <<"exact", FromBE(e.n)>> ELSE IF e.op = "SetMinFee" THEN <<"notless", FromBE(e.n)>> ELSE feeReq)
   \* collateral fields: unset | set by a helper | set through a raw setter | a helper failed while nothing was set
   /\ colSt' = (IF e.op \in ColHelpers THEN (IF Has(e.r, "ok") THEN "helper" ELSE IF colSt \in {"unset", "failed"} THEN "failed" ELSE colSt)
                ELSE IF e.op \in {"SetCollateralReturn", "SetTotalCollateral"} /\ Has(e.r, "ok") THEN "raw"
@@ -142,7 +144,6 @@ ScriptChecks(e, tx, body, ws, sc, shape) ==
              /\ (a.purpose \in {0, 1, 2} => Chk(reds[j].ix = Expected(a), "C10", "Built/redeemer-index-wrong", sc, [rid |-> a.rid, purpose |-> a.purpose, want |-> Expected(a), got |-> reds[j].ix]))
              /\ (a.purpose = 3 =>
                    IF reds[j].ix = RewardIxLedger(body, a.item) THEN TRUE
-                   ELSE IF reds[j].ix = RewardIxBytes(body, a.item) THEN Note("C10", "ambiguous-order", sc, [rid |-> a.rid])   \* key and script accounts mixed
                    ELSE Fail("C10", "Built/reward-redeemer-index-wrong", sc, [rid |-> a.rid, want |-> RewardIxLedger(body, a.item), got |-> reds[j].ix]))
   /\ Chk(\A i, j \in 1..Len(reds) : i # j => <<reds[i].tag, reds[i].ix>> # <<reds[j].tag, reds[j].ix>>, "C10", "Built/two-redeemers-share-a-pointer", sc, 0)
   /\ Chk(Len(reds) = Cardinality(live), "C10", "Built/redeemer-without-script-use", sc, [redeemers |-> Len(reds), uses |-> Cardinality(live)])
@@ -243,7 +244,9 @@ Built(e) ==
               vks == Elems(sws, 0)
               got == {vks[j].kids[1].str : j \in 1..Len(vks)}
               gotHashes == {IF v \in DOMAIN keys THEN keys[v] ELSE <<>> : v \in got}
-              need == VKeysNeeded(body, ws)
+              \* plus the signers the caller declared for a Plutus script use that is still part of the body (they are not in the body: the
+              \* builder counts them as witnesses to come)
+              need == VKeysNeeded(body, ws) \cup {a.req : a \in {x \in AllAttach : Has(x, "req") /\ x.req # <<>> /\ x.purpose = 0 /\ \E j \in 1..Len(Elems(body,0)) : Span(e.tx, Elems(body,0)[j]) = x.item}}
               boots == Elems(sws, 2)
               needB == ByronNeeded(body)
               size == Len(e.signed.bytes)
